@@ -62,6 +62,11 @@ func render(toks []string) (string, []string) {
 		a, r1 := render(rest)
 		b, r2 := render(r1)
 		return t + "(" + a + ", " + b + ")", r2
+	case strings.HasPrefix(t, "bnd"):
+		// a & <b : the bound validates the value through BinOp(op, a, b)
+		a, r1 := render(rest)
+		b, r2 := render(r1)
+		return "(" + a + " & " + t[3:] + "(" + b + "))", r2
 	case t == "neg":
 		a, r1 := render(rest)
 		return "(-" + a + ")", r1
@@ -188,11 +193,12 @@ func runCase(line string) (res string) {
 // ---------------------------------------------------------------- generation ----
 
 type gen struct {
-	r     *common.Rng
-	out   *common.Out
-	maxD  int // largest number of digits of random operands
-	bigE  int // largest |exponent|
-	stats map[string]int
+	r      *common.Rng
+	out    *common.Out
+	maxD   int  // largest number of digits of random operands
+	bigE   int  // largest |exponent|
+	bounds bool // also emit bound-validation forms (E bnd<op> a b)
+	stats  map[string]int
 }
 
 func (g *gen) emit(c string) {
@@ -316,6 +322,7 @@ func (g *gen) operand(intOnly bool) string {
 
 var arithOps = []string{"+", "-", "*", "/"}
 var cmpOps = []string{"==", "!=", "<", "<=", ">", ">="}
+var boundOps = []string{"!=", "<", "<=", ">", ">="}
 var callOps = []string{"div", "mod", "quo", "rem"}
 
 func (g *gen) expr(depth int, wantInt bool) string {
@@ -393,6 +400,105 @@ func abs64(i int64) int64 {
 		return -i
 	}
 	return i
+}
+
+// mixedOrder: ordering and equality between an INT and a FLOAT operand whose values differ by
+// less than a float64 ulp (or not at all): magnitudes around 2^52, 2^53, 2^63, 2^64, 2^100, 2^113,
+// 10^k, each +-1 on the int side and +-0 / +-0.5 / +-1 on the float side, the float in several
+// representations (b.0, b.00, b e0, m e k), both operand orders, all six operators, both signs;
+// and floats below the smallest float64 subnormal against the ints 0, 1, -1.
+// Decimal.Cmp decides all of them exactly; a comparison through float64 does not.
+func (g *gen) mixedOrder(full bool) {
+	var bases []*big.Int
+	for _, sh := range []uint{52, 53, 63, 64} {
+		bases = append(bases, new(big.Int).Lsh(big.NewInt(1), sh))
+	}
+	ks := []int{16, 17, 19, 22, 23, 34, 36}
+	if full {
+		for _, sh := range []uint{24, 31, 32, 54, 62, 65, 100, 113, 127, 128, 256} {
+			bases = append(bases, new(big.Int).Lsh(big.NewInt(1), sh))
+		}
+		bases = append(bases, new(big.Int).Add(new(big.Int).Lsh(big.NewInt(1), 54), big.NewInt(2)),
+			new(big.Int).Mul(big.NewInt(3), new(big.Int).Lsh(big.NewInt(1), 53)))
+		ks = nil
+		for k := 15; k <= 41; k++ {
+			ks = append(ks, k)
+		}
+	}
+	for _, k := range ks {
+		bases = append(bases, pow10(k))
+	}
+	emitPair := func(a, b string) {
+		for _, op := range cmpOps {
+			g.emit("E " + op + " " + a + " " + b)
+			g.emit("E " + op + " " + b + " " + a)
+		}
+		if g.bounds {
+			// the same comparisons as validation of a value against a bound: a & <b ...
+			for _, op := range boundOps {
+				if g.r.Chance(1, 2) {
+					g.emit("E bnd" + op + " " + a + " " + b)
+				} else {
+					g.emit("E bnd" + op + " " + b + " " + a)
+				}
+			}
+		}
+	}
+	for _, b := range bases {
+		// float operands: (2b + h)/2 for h in -2..2, i.e. b-1, b-0.5, b, b+0.5, b+1
+		var flts []string
+		for h := int64(-2); h <= 2; h++ {
+			c := new(big.Int).Add(new(big.Int).Mul(b, big.NewInt(10)), big.NewInt(5*h))
+			flts = append(flts, lit(false, c, -1))
+		}
+		// other representations of b itself
+		flts = append(flts, lit(false, b, 0), lit(false, new(big.Int).Mul(b, big.NewInt(100)), -2))
+		// b as mantissa and positive exponent when it is a multiple of a power of ten
+		if r := new(big.Int).Mod(b, big.NewInt(10)); r.Sign() == 0 {
+			m := new(big.Int).Set(b)
+			e := 0
+			for new(big.Int).Mod(m, big.NewInt(10)).Sign() == 0 {
+				m.Div(m, big.NewInt(10))
+				e++
+			}
+			flts = append(flts, lit(false, m, e), lit(false, new(big.Int).Mul(m, big.NewInt(10)), e-1))
+		}
+		for d := int64(-1); d <= 1; d++ {
+			iv := new(big.Int).Add(b, big.NewInt(d))
+			a := lit(true, iv, 0)
+			for _, f := range flts {
+				if !full && g.r.Chance(1, 3) {
+					continue
+				}
+				if g.r.Chance(1, 3) {
+					emitPair("neg "+a, "neg "+f)
+				} else {
+					emitPair(a, f)
+				}
+			}
+		}
+	}
+	// floats that underflow float64 (and the smallest subnormals) against small ints
+	tiny := []string{lit(false, big.NewInt(1), -400), lit(false, big.NewInt(49), -325), lit(false, big.NewInt(1), -323),
+		lit(false, big.NewInt(24), -325), lit(false, big.NewInt(1), -1000), lit(false, big.NewInt(0), -400)}
+	for _, f := range tiny {
+		for _, iv := range []int64{0, 1} {
+			a := lit(true, big.NewInt(iv), 0)
+			emitPair(a, f)
+			emitPair(a, "neg "+f)
+			if iv != 0 {
+				emitPair("neg "+a, "neg "+f)
+				// 1 - tiny and 1 + tiny are not 1
+				emitPair(a, "+ "+lit(false, big.NewInt(1), 0)+" "+f)
+			}
+		}
+	}
+	// huge floats (beyond float64) against huge ints
+	for _, k := range []int{308, 309, 400} {
+		a := lit(true, new(big.Int).Add(pow10(k), big.NewInt(1)), 0)
+		emitPair(a, lit(false, big.NewInt(1), k))
+		emitPair(a, lit(false, new(big.Int).Add(pow10(34), big.NewInt(1)), k-34))
+	}
 }
 
 func (g *gen) boundaries(full bool) {
@@ -757,7 +863,7 @@ func main() {
 	seed := uint64(common.Atoi(a["--seed"], 1))
 	full := a["--tier"] == "thorough"
 	g := &gen{r: common.NewRng(seed), out: out, maxD: common.Atoi(a["--maxdigits"], 300),
-		bigE: common.Atoi(a["--maxexp"], 2000), stats: map[string]int{}}
+		bigE: common.Atoi(a["--maxexp"], 2000), stats: map[string]int{}, bounds: a["--bounds"] == "1"}
 	if cf := a["--corpus"]; cf != "" {
 		if data, err := os.ReadFile(cf); err == nil {
 			for _, line := range strings.Split(string(data), "\n") {
@@ -769,6 +875,7 @@ func main() {
 	}
 	g.exhaustive(full)
 	g.boundaries(full)
+	g.mixedOrder(full)
 	g.random(common.Atoi(a["--n"], 2000))
 	if full {
 		g.literalsExhaustive("0123456789_.eE+-xXboKMGTPiaAfF\x00 ", 3)
